@@ -496,6 +496,17 @@ func Lit(cond ssa.Value, pol bool) string {
 			if !pol {
 				op = negCmp(op)
 			}
+			// parity of a non-negative quantity: `n%2 != 0` is `n%2 == 1`, `n%2 == 0` is `n%2 != 1`
+			if rem, isRem := x.(*ssa.BinOp); isRem && rem.Op == token.REM && isConstInt(rem.Y, 2) && nonNegative(rem.X) {
+				if k, isK := constInt(y); isK && k == 0 {
+					switch op {
+					case token.NEQ:
+						return Term(x) + " == 1"
+					case token.EQL:
+						return Term(x) + " != 1"
+					}
+				}
+			}
 			// non-negative quantities: `> 0`, `>= 1` are `!= 0`; `<= 0`, `< 1` are `== 0`
 			if nonNegative(x) {
 				if k, isK := constInt(y); isK {
